@@ -165,6 +165,45 @@ def main():
     if rc not in (0, 1, 2):
         print("HARNESS-ERROR harness %s exited with status %d" % (spec["harness"], rc))
         rc = 2
+    # chained harnesses: further parts of the same property's check (e.g. the end-to-end protocol layer);
+    # each writes its own evidence, which is merged into the property's evidence file
+    main_ev = None
+    for a in rest:
+        pass
+    ev_path = os.path.join(VERIF, "evidence", cid + ".json")
+    if "-evidence" in rest:
+        ev_path = rest[rest.index("-evidence") + 1]
+    for sub in spec.get("also", []):
+        sspec = reg[sub]
+        sbin, sov = build(sub, sspec)
+        sub_ev = ev_path + "." + sub + ".part"
+        sargs = ["-tier", tier] + [x for x in sspec.get("args", []) if x not in ("-evidence",) and not x.endswith(sub + ".json")] + \
+            sspec.get(tier + "_args", []) + ["-evidence", sub_ev] + [x for x in rest if x != "-evidence" and x != ev_path]
+        senv = dict(env)
+        senv["VERIF_OVERLAY"] = sov
+        p2 = subprocess.run([sbin] + sargs, cwd=VERIF, env=senv)
+        rc2 = p2.returncode if p2.returncode in (0, 1, 2) else 2
+        try:
+            a = json.load(open(ev_path))
+            b = json.load(open(sub_ev))
+            ca, cb = a["coverage"], b["coverage"]
+            ca["chained_" + sub] = cb
+            for k in ("evaluations", "distinct_nontrivial"):
+                ca[k] = ca.get(k, 0) + cb.get(k, 0)
+            ca["exhaustive"] = bool(ca.get("exhaustive")) and bool(cb.get("exhaustive"))
+            ca["rule"] = ca.get("rule", "") + " || chained part " + sub + ": " + cb.get("rule", "")
+            a["violations"] = a.get("violations", 0) + b.get("violations", 0)
+            a["wall_s"] = a.get("wall_s", 0) + b.get("wall_s", 0)
+            a["assumptions"] = a.get("assumptions", []) + b.get("assumptions", [])
+            json.dump(a, open(ev_path, "w"), indent=1)
+            os.remove(sub_ev)
+        except Exception as e:  # noqa
+            print("HARNESS-ERROR cannot merge evidence of chained part %s: %s" % (sub, e))
+            rc2 = 2
+        if rc2 == 1 or rc == 1:
+            rc = 1
+        elif rc2 == 2:
+            rc = 2
     sys.exit(rc)
 
 
